@@ -47,13 +47,19 @@ func genG(t *rapid.T, depth int) *model.G {
 }
 
 func genGCase(t *rapid.T) GCase {
-	return GCase{
+	c := GCase{
 		G:       *genG(t, 3),
 		Default: int(rapid.SampledFrom([]geom.Layout{geom.XY, geom.XY, geom.XYZ}).Draw(t, "default")),
 		Route:   rapid.IntRange(0, int(model.NumRoutes)-1).Draw(t, "route"),
 		Poison:  rapid.IntRange(0, 3).Draw(t, "poison") == 0,
-		Deep:    rapid.SampledFrom([]int{0, 0, 0, 0, 0, 0, 0, 0, 0, 0, 0, 0, 0, 0, 0, 0, 0, 0, 0, 0, 0, 0, 0, 0, 0, 0, 0, 0, 0, 0, 5, 16, 31, 32, 33, 64, 65, 130}).Draw(t, "deep"),
+		Deep:    rapid.SampledFrom([]int{0, 0, 0, 0, 0, 0, 0, 0, 0, 0, 0, 0, 0, 0, 0, 0, 0, 0, 0, 0, 0, 0, 0, 0, 0, 0, 0, 0, 0, 0, 5, 16, 31, 32, 33, 64, 65, 130, 257}).Draw(t, "deep"),
 	}
+	// a thousand levels once in a thousand cases (the decoder looks at every level's
+	// text again for each level above it: a tower of 1030 costs some 50 ms per decode)
+	if rapid.IntRange(0, 999).Draw(t, "verydeep") == 517 {
+		c.Deep = rapid.SampledFrom([]int{1000, 1030}).Draw(t, "verydeepn")
+	}
+	return c
 }
 
 // firstComponentEmpty mirrors what "the layout is inferred from the first
